@@ -89,6 +89,10 @@ def shapes(tier):
         {"prog": "scatterjobs", "n": 3}, {"prog": "filescatter", "n": 2}, {"prog": "filediamond"},
         {"prog": "loopjob", "pred": "lt3"},
         {"prog": "filescatter2c", "n": 3, "faults_on": ["/C1/0", "/B/0.1"]},
+        # two sites: /f1 (resp. /B) runs on a deployment with its own storage, so its inputs are read-only physical
+        # replicas (registered as related copies) that survive the loss of the producer's directories
+        {"prog": "filejobs", "k": 2, "sites": {"/f1": "site2"}},
+        {"prog": "filediamond", "sites": {"/B": "site2"}, "faults_on": ["/B/0", "/C/0", "/D/0"]},
     ]
     if tier == "quick":
         return q
